@@ -27,6 +27,8 @@ func checkC17(c *Ctx) {
 	r.Rule("C17/POOL", "statePool.states/channels only under the pool mutex; getState stores the shrunk slice before returning the popped state; every function that obtains a state defers putState once, after the success check")
 	r.Rule("C17/LUA/fresh", "a Lua-callable constructor (func(*lua.LState) int) hands Lua only objects it allocates during that call: no value wrapped into LUserData.Value inside such a function derives from a captured variable or a package-level variable (it would be shared by every call and every pooled state)")
 	c.c17Fresh()
+	r.Rule("C17/LUA/isolated", "a Lua handler that exposes its (by-value) event parameter to Lua first replaces every pointer- or slice-typed field of that struct by a freshly allocated copy: what a script writes through the object cannot reach the caller's or another listener's data unless the handler returns it")
+	c.c17Isolated()
 	c.c17First()
 	c.c17Map()
 	c.c17Replace()
@@ -872,4 +874,130 @@ func (c *Ctx) luaFailureYieldsNil(fn *ssa.Function, starts []*ssa.BasicBlock, de
 		}
 	}
 	return ""
+}
+
+// c17Isolated: see the rule text. The event structs are copied by value on the way to a
+// listener, but their From/To/Mailboxes fields alias the caller's data; the Lua bindings make
+// those writable (msg.from.address = ...).
+func (c *Ctx) c17Isolated() {
+	r, p := c.R, c.P
+	fns := pkgFuncs(p, luaRel)
+	var fresh func(v ssa.Value, depth int) bool
+	fresh = func(v ssa.Value, depth int) bool {
+		if depth > 5 {
+			return false
+		}
+		switch x := v.(type) {
+		case *ssa.Const:
+			return x.IsNil()
+		case *ssa.Alloc:
+			return true
+		case *ssa.MakeSlice:
+			return true
+		case *ssa.Phi:
+			for _, e := range x.Edges {
+				if !fresh(e, depth+1) {
+					return false
+				}
+			}
+			return true
+		case *ssa.Call:
+			if eng.CalleeName(x.Common()) == "builtin.append" {
+				return fresh(x.Call.Args[0], depth+1)
+			}
+			if rets, g := eng.ReturnedValues(x, 0); g != nil && len(rets) > 0 {
+				for _, rv := range rets {
+					if !fresh(rv, depth+1) {
+						return false
+					}
+				}
+				return true
+			}
+		}
+		return false
+	}
+	// fieldsRefreshed: which fields of the struct addressed by base are stored a fresh value
+	// in fn (before `before` when given)
+	var refreshed func(fn *ssa.Function, base ssa.Value, before ssa.Instruction, depth int) map[int]bool
+	refreshed = func(fn *ssa.Function, base ssa.Value, before ssa.Instruction, depth int) map[int]bool {
+		out := map[int]bool{}
+		if depth > 2 {
+			return out
+		}
+		eng.EachInstr(fn, func(in ssa.Instruction) {
+			if before != nil && !eng.Dominates(in, before) {
+				return
+			}
+			switch x := in.(type) {
+			case *ssa.Store:
+				if fa, ok := x.Addr.(*ssa.FieldAddr); ok && fa.X == base && fresh(x.Val, 0) {
+					out[fa.Field] = true
+				}
+			case *ssa.Call:
+				g := eng.StaticCallee(x.Common())
+				if g == nil || eng.FuncPkgPath(g) != eng.Mod+"/"+luaRel || len(g.Blocks) == 0 {
+					return
+				}
+				for i, a := range x.Call.Args {
+					if a == base && i < len(g.Params) {
+						for f := range refreshed(g, g.Params[i], nil, depth+1) {
+							out[f] = true
+						}
+					}
+				}
+			}
+		})
+		return out
+	}
+	n := 0
+	for _, fn := range fns {
+		fn := fn
+		eng.EachInstr(fn, func(in ssa.Instruction) {
+			call, ok := in.(*ssa.Call)
+			if !ok {
+				return
+			}
+			g := eng.StaticCallee(call.Common())
+			if g == nil || !strings.HasPrefix(g.Name(), "wrap") || eng.FuncPkgPath(g) != eng.Mod+"/"+luaRel {
+				return
+			}
+			for _, a := range call.Call.Args {
+				al, ok := a.(*ssa.Alloc)
+				if !ok {
+					continue
+				}
+				// the spilled by-value parameter of the handler
+				isParam := false
+				for _, ref := range *al.Referrers() {
+					if st, ok := ref.(*ssa.Store); ok && st.Addr == ssa.Value(al) {
+						if _, isP := st.Val.(*ssa.Parameter); isP {
+							isParam = true
+						}
+					}
+				}
+				st, isStruct := al.Type().(*types.Pointer).Elem().Underlying().(*types.Struct)
+				if !isParam || !isStruct {
+					continue
+				}
+				n++
+				got := refreshed(fn, al, in, 0)
+				var missing []string
+				for i := 0; i < st.NumFields(); i++ {
+					switch st.Field(i).Type().Underlying().(type) {
+					case *types.Pointer, *types.Slice, *types.Map:
+						if !got[i] {
+							missing = append(missing, st.Field(i).Name())
+						}
+					}
+				}
+				cons := "event-param@" + shortFn(fn)
+				if len(missing) > 0 {
+					r.Bad("C17/LUA/isolated", cons, p.InstrPos(in), "the event handed to Lua still shares its field(s) %s with the caller: a script that writes through them (msg.from.address = …) and then raises an error, returns nothing or defers has nevertheless changed the sender/recipients the server goes on to use (and what other listeners and the store see)", strings.Join(missing, ", "))
+				} else {
+					r.Ok("C17/LUA/isolated", cons, p.InstrPos(in), "every pointer/slice field of the event is replaced by a fresh copy before Lua sees it")
+				}
+			}
+		})
+	}
+	r.Floor("C17/LUA/isolated", "handlers exposing their event parameter to Lua", n, 1)
 }
